@@ -156,6 +156,11 @@ func init() {
 		"node label sets are enumerated (sizes and seed below), weights are 1; Hash(key)=Bucket(first 4 bytes of md5(key)) is covered through the ring location being an arbitrary 32-bit value",
 	}, stdAssumptions...),
 		Quick: []Job{ring(1, 0, rb), ring(2, 0, rb), ring(3, 0, rb), ring(4, 1, rb), ring(8, 2, rb),
+			func() Job {
+				j := ring(4, 3, rb+"; labels are 36-byte IPv6 host:port strings that agree on their first 35 bytes")
+				j.Name, j.Params = "ring-n4-long-labels", map[string]int64{"n": 4, "seed": 3, "perms": 6, "long": 1}
+				return j
+			}(),
 			{Pkg: "./handlers/memcached/cluster", Func: "ZZClusterSetGet", Params: map[string]int64{"n": 3}, Reach: []string{"set-done", "get-done"}, Bounds: "the real cluster Handler over 3 nodes (std handlers onto memcached models): set of a symbolic 2-byte key through one handler, get through a second handler over its own connection objects with the nodes listed in reverse; MD5 uninterpreted (any 32-bit ring location)"}},
 		Thorough: []Job{ring(3, 7, rb), ring(5, 3, rb), ring(16, 4, rb), ring(25, 3, rb), ring(30, 6, rb), ring(32, 5, rb)}})
 
@@ -341,6 +346,8 @@ func init() {
 		Quick: []Job{
 			{Pkg: "./handlers/inmem", Func: "ZZStep", Reach: []string{"step-done"}, Bounds: "10 command kinds (incl. 2-key get/gete) from every 2-key map state"},
 			{Pkg: "./handlers/inmem", Func: "ZZConcurrent", Sched: true, Race: true, Reach: []string{"both-done"}, Bounds: "2 goroutines x {set,add,delete,get,append,touch,gete} on one key, all schedules"},
+			{Pkg: "./handlers/inmem", Func: "ZZConcurrent2Keys", Sched: true, Reach: []string{"both-done"}, Bounds: "a 2-key get / gete against a writer, all schedules at lock granularity (a pending writer keeps new readers out, as sync.RWMutex does)"},
+			{Pkg: "./handlers/inmem", Func: "ZZHold", Reach: []string{"held"}, Bounds: "set; append; get/gete/gat (value held); prepend/append/set/delete: the held bytes are unchanged"},
 		},
 		Thorough: []Job{{Pkg: "./handlers/inmem", Func: "ZZStep", Name: "ZZStep-3keys-2bytes", Params: map[string]int64{"nk": 3, "len0": 2}, Reach: []string{"step-done"}, Bounds: "10 command kinds from every 3-key map state, stored values 2 bytes"}}})
 }
